@@ -150,7 +150,8 @@ def run(ctx):
         if b.root != b.defp:
             continue
         fcalls = prog.flat(b.defp).calls()      # the lock may be taken in a private helper of the cache type
-        locks = [(blk, c, t) for (blk, c, t) in fcalls if c.method in ("lock", "try_lock") and "Mutex" in c.self_s]
+        from .common import is_lock_call
+        locks = [(blk, c, t) for (blk, c, t) in fcalls if is_lock_call(c)]
         if not locks:
             continue
         ops = {c.method for (_, c, _) in fcalls if "LruCache" in c.self_s or "lru_time_cache" in c.target}
@@ -167,6 +168,20 @@ def run(ctx):
                 locs, calls, _ = fb_.slice_back([0])
                 if any(cc.method == "insert" for (_, cc, _) in calls):
                     kind.add("test-and-set")
+        if {"lookup", "insert"} <= kind and "test-and-set" not in kind:
+            # membership test and insert in one function are one operation only under ONE guard: which acquisition does each go through?
+            fb_ = prog.flat(b.defp)
+
+            def guard_sites(meths):
+                out = set()
+                for (blk2, c2, t2) in fb_.calls():
+                    if c2.method in meths and ("LruCache" in c2.self_s or "lru_time_cache" in c2.target) and t2["args"] and op_place(t2["args"][0]):
+                        _, cs2, _ = fb_.slice_back([op_place(t2["args"][0])[0]])
+                        out |= {bb for (bb, cc, _) in cs2 if is_lock_call(cc)}
+                return out
+            g_look, g_ins = guard_sites(("get", "contains_key", "peek", "get_mut")), guard_sites(("insert", "entry"))
+            if g_look and g_ins and not (g_look & g_ins):
+                kind.add("split-guard")
         if kind and b.argc >= 2 and b.local_ty(0) in ("bool", "()"):
             accessors[b.defp] = kind
     # K3b a recorded salt stays recorded: nothing on the decode path may take entries out of the replay cache. (A flow that fails after
@@ -215,7 +230,12 @@ def run(ctx):
     users = kept or sorted(users, key=lambda u: -u[0].n)[:1]      # mutually recursive stages contain each other: judge the larger view
     ctx.floor("K3", "accept paths using the salt cache", 1, len(users))
     for (b, cs) in users:
-        combined = [x for x in cs if accessors[x[1].target] >= {"lookup", "insert"}]
+        combined = [x for x in cs if accessors[x[1].target] >= {"lookup", "insert"} and "split-guard" not in accessors[x[1].target]]
+        for x in cs:
+            if "split-guard" in accessors[x[1].target]:
+                ctx.ob("K3", b.defp, "test-and-set-under-one-guard", loc(x[2]["sp"]), False,
+                       f"`{x[1].name}` tests membership under one lock acquisition and inserts under another: of two concurrent copies of one handshake both can pass the test "
+                       "before either records the salt, and both are accepted")
         for x in cs:
             if "test-and-set" in accessors[x[1].target]:
                 # the caller must refuse when the salt was already there
